@@ -15,6 +15,8 @@ type Op struct {
 	V      uint32 `json:"v,omitempty"`      // operand value / flag mask / base address / data length
 	Label  string `json:"label,omitempty"`
 	Seed   uint32 `json:"seed,omitempty"` // data bytes = DataByte(seed, i)
+	// Period > 0: the data repeat with that period (tables of equal records): data bytes = DataByte(seed, i % Period)
+	Period int    `json:"period,omitempty"`
 	Text   string `json:"text,omitempty"`
 	// Alias > 0 (data only, honoured by ApplyRealIn): the slice handed to EmitBytes is a window of the emitter's own target
 	// buffer, Alias bytes above the write position, so that it overlaps the destination
@@ -55,6 +57,9 @@ func (o Op) Data() []byte {
 	b := make([]byte, o.V)
 	for i := range b {
 		b[i] = DataByte(o.Seed, i)
+		if o.Period > 0 {
+			b[i] = DataByte(o.Seed, i%o.Period)
+		}
 		if o.Nops {
 			b[i] = 0xEA
 		}
